@@ -1,0 +1,203 @@
+//go:build verif
+
+package gff
+
+// Bounded stand-ins for the round-trip and layout clauses of C02/C04. Only compiled with -tags verif.
+
+import (
+	"bytes"
+	"fmt"
+	"math"
+	"strings"
+	"testing"
+
+	"github.com/biogo/biogo/alphabet"
+	"github.com/biogo/biogo/feat"
+	"github.com/biogo/biogo/seq"
+	"github.com/biogo/biogo/seq/linear"
+)
+
+func verifFeatures() []*Feature {
+	scores := []*float64{nil}
+	for _, v := range []float64{0, -1.5, 1e300, math.Inf(1), math.Inf(-1), 0.1} {
+		v := v
+		scores = append(scores, &v)
+	}
+	attrs := []Attributes{nil, {{"tag", "value"}}, {{"a", "\"free text\""}, {"b_2", "1 2 3"}}, {{"flag", ""}}}
+	var out []*Feature
+	i := 0
+	for _, start := range []int{0, 1, 7, 1 << 40} {
+		for _, length := range []int{1, 2, 1000} {
+			for _, sc := range scores {
+				i++
+				f := &Feature{
+					SeqName: []string{"seq", "s q", "chr#1"}[i%3], Source: []string{"src", "a b"}[i%2], Feature: []string{"exon", "x y"}[i%2],
+					FeatStart: start, FeatEnd: start + length, FeatScore: sc,
+					FeatStrand: []seq.Strand{seq.Plus, seq.Minus, seq.None}[i%3],
+					FeatFrame:  []Frame{NoFrame, Frame0, Frame1, Frame2}[i%4],
+					FeatAttributes: attrs[i%len(attrs)],
+				}
+				if i%5 == 0 {
+					f.Comments = "a comment"
+				}
+				out = append(out, f)
+			}
+		}
+	}
+	return out
+}
+
+func verifEqual(a, b *Feature) bool {
+	if a.SeqName != b.SeqName || a.Source != b.Source || a.Feature != b.Feature || a.FeatStart != b.FeatStart || a.FeatEnd != b.FeatEnd ||
+		a.FeatStrand != b.FeatStrand || a.FeatFrame != b.FeatFrame || a.Comments != b.Comments || len(a.FeatAttributes) != len(b.FeatAttributes) {
+		return false
+	}
+	if (a.FeatScore == nil) != (b.FeatScore == nil) || (a.FeatScore != nil && *a.FeatScore != *b.FeatScore) {
+		return false
+	}
+	for i := range a.FeatAttributes {
+		if a.FeatAttributes[i] != b.FeatAttributes[i] {
+			return false
+		}
+	}
+	return a.Start() == b.Start() && a.End() == b.End() && a.Len() == b.Len()
+}
+
+func verifReadAll(t *testing.T, data []byte) []feat.Feature {
+	r := NewReader(bytes.NewReader(data))
+	var out []feat.Feature
+	for i := 0; i < 1000; i++ {
+		f, err := r.Read()
+		if err != nil {
+			return out
+		}
+		out = append(out, f)
+	}
+	t.Fatal("reader did not reach EOF")
+	return nil
+}
+
+// TestVerifBounded_C02_GFFRoundTrip: features, sequence regions and inline sequences, header on and off.
+func TestVerifBounded_C02_GFFRoundTrip(t *testing.T) {
+	cases, nontrivial := 0, 0
+	for _, header := range []bool{false, true} {
+		for _, f := range verifFeatures() {
+			cases++
+			nontrivial++
+			var buf bytes.Buffer
+			w := NewWriter(&buf, 60, header)
+			before := buf.Len()
+			n, err := w.Write(f)
+			if err != nil {
+				t.Fatalf("write %+v: %v", f, err)
+			}
+			if n != buf.Len()-before {
+				t.Fatalf("Write reported %d bytes, emitted %d for %q", n, buf.Len()-before, buf.String())
+			}
+			line := buf.String()
+			cols := strings.Split(strings.TrimSuffix(line[before:], "\n"), "\t")
+			if cols[3] != fmt.Sprint(f.FeatStart+1) || cols[4] != fmt.Sprint(f.FeatEnd) {
+				t.Fatalf("GFF text must carry 1-based inclusive coordinates: %q for [%d,%d)", line, f.FeatStart, f.FeatEnd)
+			}
+			got := verifReadAll(t, buf.Bytes())
+			if len(got) != 1 {
+				t.Fatalf("%q read back as %d features", line, len(got))
+			}
+			g, ok := got[0].(*Feature)
+			if !ok || !verifEqual(f, g) {
+				t.Fatalf("%q read back as %+v, want %+v", line, got[0], f)
+			}
+		}
+		// sequence regions
+		for _, start := range []int{0, 1, 7} {
+			for _, length := range []int{1, 50} {
+				cases++
+				nontrivial++
+				reg := &Region{Sequence: Sequence{SeqName: "chrX"}, RegionStart: start, RegionEnd: start + length}
+				var buf bytes.Buffer
+				w := NewWriter(&buf, 60, header)
+				before := buf.Len()
+				n, err := w.Write(reg)
+				if err != nil || n != buf.Len()-before {
+					t.Fatalf("region write: n=%d emitted=%d err=%v", n, buf.Len()-before, err)
+				}
+				got := verifReadAll(t, buf.Bytes())
+				if len(got) != 1 {
+					t.Fatalf("%q read back as %d features", buf.String(), len(got))
+				}
+				g, ok := got[0].(*Region)
+				if !ok || g.SeqName != reg.SeqName || g.Start() != reg.Start() || g.End() != reg.End() || g.Len() != reg.Len() {
+					t.Fatalf("%q read back as %+v", buf.String(), got[0])
+				}
+			}
+		}
+		// inline sequences
+		for _, letters := range []string{"a", "acgt", strings.Repeat("acgtn", 30)} {
+			cases++
+			nontrivial++
+			s := linear.NewSeq("inline1", alphabet.BytesToLetters([]byte(letters)), alphabet.DNA)
+			var buf bytes.Buffer
+			w := NewWriter(&buf, 7, header)
+			before := buf.Len()
+			n, err := w.Write(s)
+			if err != nil || n != buf.Len()-before {
+				t.Fatalf("sequence write: n=%d emitted=%d err=%v", n, buf.Len()-before, err)
+			}
+			got := verifReadAll(t, buf.Bytes())
+			if len(got) != 1 {
+				t.Fatalf("%q read back as %d features", buf.String(), len(got))
+			}
+			g, ok := got[0].(*linear.Seq)
+			if !ok || g.ID != "inline1" || string(alphabet.LettersToBytes(g.Seq)) != letters {
+				t.Fatalf("%q read back as %+v", buf.String(), got[0])
+			}
+		}
+	}
+	fmt.Printf("BOUNDED name=C02.gff-roundtrip cases=%d nontrivial=%d exhaustive=true domain=%q\n", cases, nontrivial, "84 features (starts {0,1,7,2^40} x lengths {1,2,1000} x scores {nil,0,-1.5,1e300,+Inf,-Inf,0.1}, 3 strands, 4 frames, 0-2 attributes, comments) + 6 regions + 3 inline sequences, header on/off")
+}
+
+// TestVerifBounded_C04_GFFLayout: CRLF or LF, final newline present or not.
+func TestVerifBounded_C04_GFFLayout(t *testing.T) {
+	cases, nontrivial := 0, 0
+	all := verifFeatures()
+	for start := 0; start+4 <= len(all); start += 4 {
+		var buf bytes.Buffer
+		w := NewWriter(&buf, 60, start%8 == 0)
+		for _, f := range all[start : start+4] {
+			if _, err := w.Write(f); err != nil {
+				t.Fatal(err)
+			}
+		}
+		w.Write(&Region{Sequence: Sequence{SeqName: "chrX"}, RegionStart: 3, RegionEnd: 9})
+		base := strings.TrimSuffix(buf.String(), "\n")
+		want := verifReadAll(t, []byte(base+"\n"))
+		if len(want) != 5 {
+			t.Fatalf("expected 5 records, got %d", len(want))
+		}
+		for vi, v := range []string{base, strings.ReplaceAll(base, "\n", "\r\n") + "\r\n", strings.ReplaceAll(base, "\n", "\r\n")} {
+			cases++
+			nontrivial++
+			got := verifReadAll(t, []byte(v))
+			if len(got) != len(want) {
+				t.Fatalf("layout variant %d: %d records, want %d (%q)", vi, len(got), len(want), v)
+			}
+			for i := range got {
+				gf, ok1 := got[i].(*Feature)
+				wf, ok2 := want[i].(*Feature)
+				if ok1 != ok2 || (ok1 && !verifEqual(gf, wf)) {
+					t.Fatalf("layout variant %d record %d differs", vi, i)
+				}
+				if !ok1 && (got[i].Start() != want[i].Start() || got[i].End() != want[i].End()) {
+					t.Fatalf("layout variant %d record %d differs", vi, i)
+				}
+			}
+		}
+		// an inline sequence whose end line is the unterminated last line
+		cases++
+		nontrivial++
+		if got := verifReadAll(t, []byte("##DNA s1\n##acgt\n##end-DNA")); len(got) != 1 {
+			t.Fatalf("inline sequence with unterminated end line: %d records", len(got))
+		}
+	}
+	fmt.Printf("BOUNDED name=C04.gff-layout cases=%d nontrivial=%d exhaustive=true domain=%q\n", cases, nontrivial, "files of 4 features + 1 region x {no final newline, CRLF, CRLF without final newline} + unterminated ##end- line")
+}
